@@ -123,8 +123,8 @@ func closeNode(r *mon.Run, prefix string, node *limitlab.Node, cse any) bool {
 		return false
 	}
 	countLatency(r, prefix, p.latency())
-	if !node.WaitRun(settleBound) {
-		r.Inconclusive(prefix + ": Run did not return after Close")
+	if !node.WaitRun(livenessBound) {
+		r.Violation("run-outlives-close", "Run had not returned 30 s after Close returned", cse, limitlab.Keys(limitlab.Inventory(nil)))
 		return false
 	}
 	return true
